@@ -1,6 +1,7 @@
 """C04 — a successful Unpack returns only values that satisfy every declared validator."""
 from ..gens import *
 from .. import typegen as TG
+from .. import catalog as CAT
 
 ID = "C04"
 LEAN_MODULE = "Ucfg.Props.C04"
@@ -47,9 +48,19 @@ def gen(rng, tier):
         if valid is not None:
             c["validFrom"] = valid
         yield c
+    # named types with Validate / InitDefaults methods next to their method-less twins
+    crng = rng.fork("catalog")
+    for _ in range(n // 4):
+        yield CAT.cat_case(crng)
 
 
-normalize_pair = TG.normalize_unpack_pair
+def normalize_pair(case, impl, model):
+    if case.get("k") == "catalog":
+        return CAT.normalize_pair(case, impl, model)
+    return TG.normalize_unpack_pair(case, impl, model)
+
+
+oracle = CAT.oracle_c04
 
 
 fix_candidate = TG.fix_typed_candidate
